@@ -87,22 +87,71 @@ func storageKind(key ssa.Value) string {
 	return ""
 }
 
+// batchOfSite: for a batch operation performed inside a helper that received the batch as an argument, the
+// operation's site is the helper call in the analysed function and this table gives the batch value there.
+var batchOfSite = map[ssa.Instruction]ssa.Value{}
+
+func batchValueOf(in ssa.Instruction) ssa.Value {
+	if v, ok := batchOfSite[in]; ok {
+		return v
+	}
+	return core.Receiver(in.(ssa.CallInstruction))
+}
+
+func isStorageWrite(call ssa.CallInstruction) bool {
+	o := core.CalleeObj(call)
+	return o != nil && (o.Name() == "Put" || o.Name() == "Delete") && strings.Contains(core.CalleeName(call), "storage.")
+}
+
 func batchOps(fn *ssa.Function) map[string]map[string][]ssa.Instruction {
 	out := map[string]map[string][]ssa.Instruction{} // kind -> op -> sites
+	add := func(k, op string, site ssa.Instruction) {
+		if out[k] == nil {
+			out[k] = map[string][]ssa.Instruction{}
+		}
+		out[k][op] = append(out[k][op], site)
+	}
 	for _, f := range core.WithClosures(fn) {
 		for _, call := range core.Calls(f) {
-			o := core.CalleeObj(call)
-			if o == nil || (o.Name() != "Put" && o.Name() != "Delete") || !strings.Contains(core.CalleeName(call), "storage.") {
+			if isStorageWrite(call) {
+				if k := storageKind(core.Arg(call, 0)); k != "" {
+					add(k, core.CalleeObj(call).Name(), call)
+				}
 				continue
 			}
-			k := storageKind(core.Arg(call, 0))
-			if k == "" {
+			// a helper of the ledger package that receives the batch and writes through it
+			g := core.StaticCallee(call)
+			if g == nil || len(g.Blocks) == 0 || core.PkgOf(g) != ledgerPkg || g == fn {
 				continue
 			}
-			if out[k] == nil {
-				out[k] = map[string][]ssa.Instruction{}
+			for ai, a := range call.Common().Args {
+				if !strings.HasSuffix(a.Type().String(), "storage.Batch") || ai >= len(g.Params) {
+					continue
+				}
+				p := g.Params[ai]
+				for _, gf := range core.WithClosures(g) {
+					for _, gc := range core.Calls(gf) {
+						if !isStorageWrite(gc) {
+							continue
+						}
+						rv := core.Receiver(gc)
+						if rv == nil || !(core.Strip(rv) == ssa.Value(p) || core.VarIdentity(rv) == ssa.Value(p) || core.Mentions(rv, func(v ssa.Value) bool { return v == ssa.Value(p) })) {
+							// closures capture the parameter: accept (a load of) a free variable of the same name
+							inner := core.Strip(rv)
+							if u, ok := inner.(*ssa.UnOp); ok {
+								inner = u.X
+							}
+							if fv, ok := inner.(*ssa.FreeVar); !ok || fv.Name() != p.Name() {
+								continue
+							}
+						}
+						if k := storageKind(core.Arg(gc, 0)); k != "" {
+							batchOfSite[call] = a
+							add(k, core.CalleeObj(gc).Name(), call)
+						}
+					}
+				}
 			}
-			out[k][o.Name()] = append(out[k][o.Name()], call)
 		}
 	}
 	return out
@@ -116,7 +165,7 @@ func sameBatchOps(ops map[string]map[string][]ssa.Instruction, needKinds []strin
 		for _, op := range []string{"Put", "Delete"} {
 			for _, in := range ops[k][op] {
 				found = true
-				recv := core.Receiver(in.(ssa.CallInstruction))
+				recv := batchValueOf(in)
 				if batch == nil {
 					batch = core.Strip(recv)
 					batchRaw = recv
